@@ -70,7 +70,7 @@ func gtFams(maxn int) []gtfam {
 			return mk(n, func(i int) (float64, float64, float64) { return 0, 1, 0 })
 		}, never1, true},
 	}
-	for _, k := range uniq(0, 0, maxn/2, maxn-1) {
+	for k := 0; k < maxn; k++ {
 		k := k
 		fs = append(fs, gtfam{fmt.Sprintf("zerocol%d", k), func(n int) (dl, d, du []float64) {
 			dl, d, du = mk(n, func(i int) (float64, float64, float64) {
@@ -94,10 +94,13 @@ func gtFams(maxn int) []gtfam {
 func never1(n int) bool { return false }
 
 func genGtsv(g *vlib.G) {
-	N := vlib.Pick(g, 9, 14)
+	N := vlib.Pick(g, 14, 18)
 	fams := gtFams(N)
 	for n := 0; n <= N; n++ {
 		for _, f := range fams {
+			if k, ok := posFam(f.name); ok && k >= n {
+				continue
+			}
 			for _, nrhs := range []int{0, 1, 3} {
 				for _, pad := range []int{0, 3} {
 					n, f, nrhs, pad := n, f, nrhs, pad
@@ -209,6 +212,45 @@ func ptFams(maxn int) []ptfam {
 	}
 	for k := 0; k < maxn; k++ {
 		k := k
+		// L*D*L^T with unit bidiagonal L (sub-diagonal +-1) and D = 2,3,2,... except D[k] = -1: the pivot
+		// at position k is -1 although every diagonal entry of A may be positive.
+		fs = append(fs, ptfam{fmt.Sprintf("ldlneg%d", k), func(n int) (d, e []float64) {
+			dd := make([]float64, n)
+			for i := range dd {
+				dd[i] = float64(2 + i%2)
+			}
+			if k < n {
+				dd[k] = -1
+			}
+			d, e = make([]float64, n), make([]float64, imax(0, n-1))
+			for i := 0; i < n; i++ {
+				d[i] = dd[i]
+				if i > 0 {
+					d[i] += dd[i-1] // l[i-1]^2 * D[i-1], l = +-1
+				}
+				if i < n-1 {
+					l := 1.0
+					if i%3 == 1 {
+						l = -1
+					}
+					e[i] = l * dd[i]
+				}
+			}
+			return
+		}, false, func(n int) bool { return k < n }})
+		if k >= 1 {
+			// identity with [1 1; 1 1] at rows k-1, k: the pivot at k is exactly 0
+			fs = append(fs, ptfam{fmt.Sprintf("zeropiv%d", k), func(n int) (d, e []float64) {
+				d, e = make([]float64, n), make([]float64, imax(0, n-1))
+				for i := range d {
+					d[i] = 1
+				}
+				if k < n {
+					e[k-1] = 1
+				}
+				return
+			}, false, func(n int) bool { return k < n }})
+		}
 		fs = append(fs, ptfam{fmt.Sprintf("negdiag%d", k), func(n int) (d, e []float64) {
 			d, e = make([]float64, n), make([]float64, imax(0, n-1))
 			for i := range d {
@@ -227,11 +269,11 @@ func ptFams(maxn int) []ptfam {
 }
 
 func genPt(g *vlib.G) {
-	N := vlib.Pick(g, 13, 20)
+	N := vlib.Pick(g, 20, 28)
 	fams := ptFams(N)
 	for n := 0; n <= N; n++ {
 		for _, f := range fams {
-			if len(f.name) > 7 && f.name[:7] == "negdiag" && !f.notPD(n) {
+			if k, ok := posFam(f.name); ok && k >= n {
 				continue
 			}
 			for _, nb := range []int{1, 2} {
@@ -370,7 +412,7 @@ func allPositive(d []float64) bool {
 // Dlacn2
 
 func genLacn2(g *vlib.G) {
-	N := vlib.Pick(g, 10, 12)
+	N := vlib.Pick(g, 12, 14)
 	fams := generalFams(N, false)
 	for n := 1; n <= N; n++ {
 		for _, f := range fams {
